@@ -43,6 +43,8 @@ def lookup(V, name):
         return MCls(name)
     if name == 'Parameter':
         return parameter_ns(V)
+    if name == 'object':
+        return MCls('object')
     if name in ('T_INT', 'T_STR', 'T_BOOL', 'T_ANY', 'T_PATH'):
         from .calls import MType
         return MType({'T_INT': INT, 'T_STR': STR, 'T_BOOL': BOOL, 'T_ANY': ANY, 'T_PATH': PATH}[name])
@@ -65,6 +67,9 @@ def lookup(V, name):
 @_b('len')
 def b_len(V, st, args, kwargs, node):
     v = args[0]
+    if V.is_live(v):
+        V.live_effect(st, 'user:len', v, node)
+        return fresh(INT, 'len')
     if isinstance(v, (MList, MTup, MFrozen)):
         return SV(INT, z3.IntVal(len(v.items)))
     if isinstance(v, SV):
@@ -106,7 +111,7 @@ def b_abs(V, st, args, kwargs, node):
 
 @_b('bool')
 def b_bool(V, st, args, kwargs, node):
-    return SV(BOOL, truthy(args[0]))
+    return SV(BOOL, V.truth_test(st, args[0], node))
 
 
 @_b('str')
@@ -155,9 +160,20 @@ def b_int(V, st, args, kwargs, node):
 @_b('isinstance')
 def b_isinstance(V, st, args, kwargs, node):
     v, c = args
+    from .values import MOpaqueSet
+    if isinstance(c, MOpaqueSet):
+        # isinstance(x, <tuple of types>): true also for SUBCLASSES - not the exact-type membership test
+        if isinstance(v, SV) and isinstance(v.t, (ObjT, OptT)):
+            f = V.uf('isinstance_any[%s]' % c.name, [Ref], z3.BoolSort())
+            vv = strip_opt(v)
+            return SV(BOOL, f(vv.z))
+        raise Unsupported('isinstance of %r with %s' % (v, c.name))
     classes = c.items if isinstance(c, MTup) else [c]
     res = []
     for cl in classes:
+        if isinstance(cl, MFn) and cl.kind == 'builtin' and cl.name in ('dict', 'list', 'tuple', 'set', 'str', 'int',
+                                                                       'bool', 'type'):
+            cl = MCls(cl.name)
         if not isinstance(cl, MCls):
             raise Unsupported('isinstance with %r' % (cl,))
         res.append(isinstance_one(V, st, v, cl.name))
@@ -165,6 +181,8 @@ def b_isinstance(V, st, args, kwargs, node):
 
 
 def isinstance_one(V, st, v, clsname):
+    if clsname == 'object':
+        return z3.BoolVal(True)
     if isinstance(v, MExc):
         from .engine import exc_is_subclass
         return z3.BoolVal(exc_is_subclass(v.cls, clsname))
@@ -188,6 +206,9 @@ def isinstance_one(V, st, v, clsname):
             return z3.And(nn, z3.BoolVal(clsname in ('list',)))
         if isinstance(t, TupT):
             return z3.And(nn, z3.BoolVal(clsname == 'tuple'))
+        if isinstance(t, ObjT) and t.family == 'Live':
+            f = V.uf('isinstance[%s]' % clsname, [Ref], z3.BoolSort())
+            return z3.And(nn, f(v.z))
         if isinstance(t, ObjT):
             if clsname in ('str', 'int', 'bool', 'list', 'tuple', 'dict', 'set'):
                 return z3.BoolVal(False)
@@ -206,6 +227,10 @@ def b_enumerate(V, st, args, kwargs, node):
         start = z.as_long()
     v = args[0]
     items = V.iter_items(v, st, node)
+    if items is None and V.is_live(v):
+        V.live_effect(st, 'user:iter', v, node)
+        f = V.uf('Live.items', [Ref], z3.SeqSort(Ref))
+        v = SV(SeqT(ObjT('Live')), f(strip_opt(v).z))
     return MEnum(items if items is not None else v, start)
 
 
@@ -397,6 +422,13 @@ def b_callable(V, st, args, kwargs, node):
 
 @_b('getattr')
 def b_getattr(V, st, args, kwargs, node):
+    if V.is_live(args[0]):
+        nm = simp(args[1].z) if isinstance(args[1], SV) and args[1].t == STR else None
+        label = 'user:getattr:' + nm.as_string() if nm is not None and z3.is_string_value(nm) else 'user:getattr'
+        V.live_effect(st, label, args[0], node)
+        V.may_raise(st, fresh(BOOL, 'hasattr').z, 'AttributeError', 'getattr on live object', node) \
+            if len(args) < 3 else None
+        return V.fresh_live()
     if len(args) >= 2 and isinstance(args[1], SV):
         nm = simp(args[1].z)
         if z3.is_string_value(nm):
@@ -430,4 +462,25 @@ def b_next(V, st, args, kwargs, node):
 
 @_b('iter')
 def b_iter(V, st, args, kwargs, node):
+    if V.is_live(args[0]):
+        V.live_effect(st, 'user:iter', args[0], node)
+        V.may_raise(st, fresh(BOOL, 'iterable').z, 'TypeError', 'object is not iterable', node)
+        return V.fresh_live()
     raise Unsupported('iter()')
+
+
+@_b('type')
+def b_type(V, st, args, kwargs, node):
+    v = args[0]
+    if isinstance(v, SV) and isinstance(v.t, ObjT):
+        f = V.uf('typeof', [Ref], Ref)
+        return SV(ObjT('Type'), f(v.z))
+    raise Unsupported('type() of %r' % (v,))
+
+
+@_b('hasattr')
+def b_hasattr(V, st, args, kwargs, node):
+    if V.is_live(args[0]):
+        V.live_effect(st, 'user:getattr', args[0], node)
+        return fresh(BOOL, 'hasattr')
+    raise Unsupported('hasattr')
